@@ -106,11 +106,11 @@ func (r vxRanking) tails(twoU int) (le, ge, total int) {
 //vx:solver z3
 //vx:maxsteps 400000000
 //vx:maxdec 100000
-//vx:bound n1+n2 <= 5 (quick) / <= 7 (thorough), every split; values any finite floats in any order (order-only reading, exact for this comparison-only code); all three alternatives; limits at their defaults
+//vx:bound n1+n2 <= 5 (quick) / <= 6 (thorough), every split; values any finite floats in any order (order-only reading, exact for this comparison-only code); all three alternatives; limits at their defaults
 //vx:outside sizes above the bound, in particular the stated limits 50/25 (reached only through the UDist check C02)
 //vx:assume sort.Float64s is replaced by its contract: an ascending permutation written in place (NaN-free input)
 func VxC01_Exact() {
-	tot := vx.Choose("N", 2, 5+2*vx.Tier())
+	tot := vx.Choose("N", 2, 5+vx.Tier())
 	n1 := vx.Choose("n1", 1, tot-1)
 	n2 := tot - n1
 	alt := LocationHypothesis(vx.Choose("alt", -1, 1))
